@@ -44,6 +44,7 @@ FAMILY = [
     ("p/mkval-4", "p", "cmd"),
     ("p/mkval-5", "p", "cmd"),
     ("p/boom", "p", "fail"),
+    ("p/evalexc", "p", "fail"),
     ("p/addn-5/out.json", "p/addn-5", "file"),
     ("p/addn-5/pic.png", "p/addn-5", "file"),
     ("p/addn-5/x.unknownext", "p/addn-5", "file"),
@@ -51,7 +52,7 @@ FAMILY = [
     ("p/sub", "p", "cmd"),
 ]
 VALUES = {"p/mkval-0": None, "p/mkval-1": 5, "p/mkval-2": "txt", "p/mkval-3": {"a": 1}, "p/mkval-4": b"by"}
-STORE_KEYS = {"p/mkval-1": "res/v.json", "p/mkval-2": "res/v.txt", "p/mkval-3": "res/v.json", "p/mkval-4": "res/v.b", "p/boom": "res/f.txt"}
+STORE_KEYS = {"p/mkval-1": "res/v.json", "p/mkval-2": "res/v.txt", "p/mkval-3": "res/v.json", "p/mkval-4": "res/v.b", "p/boom": "res/f.txt", "p/evalexc": "res/g.txt"}
 
 
 def ob_metadata_step(v: int, keepv: int, pvol: bool, with_store: bool) -> bool:
@@ -85,13 +86,14 @@ def ob_metadata_step(v: int, keepv: int, pvol: bool, with_store: bool) -> bool:
     ok = ok and got == (m["status"] == "ready")
     cm = cache.get_metadata(canonical)
     if kind == "fail":
-        has_msg = any("boom-message" in (e.get("message") or "") for e in m.get("log", []) + m.get("child_log", []))
+        msg = "boom-message" if "boom" in q else "evalexc-message"
+        has_msg = any(msg in (e.get("message") or "") for e in m.get("log", []) + m.get("child_log", []))
         ok = ok and out.is_error and has_msg and cm is not None and cm.get("status") == "error" and cm.get("is_error") is True
-        ok = ok and any("boom-message" in (e.get("message") or "") for e in cm.get("log", []) + cm.get("child_log", []))
+        ok = ok and any(msg in (e.get("message") or "") for e in cm.get("log", []) + cm.get("child_log", []))
         if with_store:
             sm = store.get_metadata(key)
             ok = ok and sm.get("status") == "error" and sm.get("is_error") is True
-            ok = ok and any("boom-message" in (e.get("message") or "") for e in sm.get("log", []) + sm.get("child_log", []))
+            ok = ok and any(msg in (e.get("message") or "") for e in sm.get("log", []) + sm.get("child_log", []))
         return check(ok, "fail")
     ok = ok and not out.is_error
     # type identifier and data characteristics of the ACTUAL value
